@@ -20,7 +20,16 @@ def sentinelize_free(st, sel, rng):
         text = s.line("")
         if i in sel:
             toks = layout.split_tokens(s.text)
-            if len(toks) > 3 and rng.random() < 0.6:
+            lits = [(a, b) for a, b, k in toks if k == "str" and b - a >= 5 and "&" not in s.text[a:b] and "!" not in s.text[a:b]]
+            if lits and rng.random() < 0.7:
+                # the line break falls inside a character literal: both continuation lines carry the sentinel,
+                # the second one starts with '&' (the literal goes on right after it)
+                a, b = rng.choice(lits)
+                cut = rng.randrange(a + 2, b - 2)
+                head = ("%d " % s.label if s.label is not None else "") + ("%s: " % s.name if s.name else "")
+                lines.append("!$ " + head + s.text[:cut] + "&")
+                lines.append(rng.choice(["!$ &", "!$&", "  !$   &"]) + s.text[cut:])
+            elif len(toks) > 3 and rng.random() < 0.6:
                 cut = toks[rng.randrange(2, len(toks))][0]
                 head = ("%d " % s.label if s.label is not None else "") + ("%s: " % s.name if s.name else "")
                 lines.append("!$ " + head + s.text[:cut] + " &")
